@@ -12,7 +12,7 @@ META = {
                    'validated numerically against central differences at start-up) derives the true first and second partials from that term, and the solver '
                    'decides that partial / partial2 (ALL direction pairs, so mixed and foreign coordinates must be 0) / gradient / hessian returned by the object are '
                    'identical to them for all points and parameters. Evaluation on an array of points equals point-wise evaluation. Legendre coefficients come from '
-                   'SciPy as floats: there the identity is decided up to 1e-9 on the box [-4,4] (epsilon-identity, stated). int_point: at points handed over as integer arrays or lists of Python ints, value / partials / gradient / Hessian equal those at the same point stored as floats.',
+                   'SciPy as floats: there the identity is decided up to 1e-9 on the box [-4,4] (epsilon-identity, stated). int_point: at points handed over as integer arrays or lists of Python ints, value / partials / gradient / Hessian equal those at the same point stored as floats. history: a function object evaluated at the same array after an in-place change, at another array and at the first array again returns what a fresh object returns; the array of points is left unchanged.',
     'bounds': {'quick': 'ConstantFunction, Identity, Monomial (exponent 0-4, symbolic prefactor), Legendre (degree 0-5, domains {1, 2, 0.5}), Sin, Cos (symbolic alpha), '
                         'GaussFunction (symbolic mean, variance>0), PeriodicGaussFunction (first derivative); dimension 1-3, every index',
                'thorough': 'Legendre degree up to 8, dimension 4'},
